@@ -631,6 +631,10 @@ func (ab *rulesPair) genUniqRuleNames() {
 	for _, ru := range ab.a.rules {
 		aNames[ru.Name] = true
 	}
+	bNames := make(map[string]bool)
+	for _, ru := range ab.b.rules {
+		bNames[ru.Name] = true
+	}
 	for _, ru := range ab.b.rules {
 		name := ru.Name
 		if !aNames[name] {
@@ -638,8 +642,9 @@ func (ab *rulesPair) genUniqRuleNames() {
 		}
 		for i := 1; ; i++ {
 			new := fmt.Sprintf("%s-%d", name, i)
-			if !aNames[new] {
+			if !aNames[new] && !bNames[new] {
 				ru.Name = new
+				bNames[new] = true
 				break
 			}
 		}
@@ -656,7 +661,7 @@ func (ab *rulesPair) genUniqGroupNames() {
 		}
 		for i := 1; ; i++ {
 			new := fmt.Sprintf("%s-%d", name, i)
-			if aGroups[new] == nil {
+			if aGroups[new] == nil && ab.b.groups[new] == nil {
 				g.Name = new
 				break
 			}
